@@ -429,7 +429,25 @@ def g_name(rng, i: int) -> str:
     return rng.choice(WORDS) + str(i)
 
 
-def g_rel_url(rng, stem: str) -> str:
+def scheme_like(rng, stem: str, unique: bool) -> str:
+    """references that merely LOOK like a scheme prefix, references that urljoin does read as carrying a scheme,
+    network-path, query-only and empty references"""
+    shapes = [
+        f"httpd/icons/{stem}.jpg", f"https_static/{stem}.png", f"httpx/{stem}", f"HTTP/{stem}", f"http{stem}", f"https/{stem}",
+        f"a/b:c{stem}", f"sub/{stem}:8080/x", f"/abs/{stem}:y",             # ':' after the first '/' is a path character
+        f"x:y/{stem}", f"host:8080/{stem}", f"urn:{stem}",                   # first segment with ':' = a foreign scheme: unchanged
+        f"http:{stem}/rel", f"https:{stem}", f"HTTP://Upper.example/{stem}", f"HTTPS://Upper.example/{stem}?q",   # own/other scheme
+        f"//host.example/{stem}", f"//host.example:81/p/{stem}?x=1", f"//h2.example",   # network-path references
+        f"?{stem}=1",
+    ]
+    if not unique:
+        shapes += ["http", "https", "?", "", "HTTP", "http:", "//only.host"]
+    return rng.choice(shapes)
+
+
+def g_rel_url(rng, stem: str, unique: bool = False) -> str:
+    if rng.random() < 0.3:
+        return scheme_like(rng, stem, unique)
     c = rng.randrange(12)
     if c == 0:
         return f"/{stem}"
@@ -618,7 +636,9 @@ def g_device(rng, depth: int, max_depth: int, wf: bool, p_corrupt: float, counte
         s = {"id": f"urn:upnp-org:serviceId:{rng.choice(WORDS)}{i}", "type": f"urn:schemas-upnp-org:service:{rng.choice(WORDS)}:{n}{i}",
              "control": g_rel_url(rng, f"ctl{n}_{i}"), "event": g_rel_url(rng, f"evt{n}_{i}"),
              "scpd": rng.choice([f"scpd{n}_{i}.xml", f"/scpd/{n}/{i}.xml", f"../s{n}_{i}.xml", f"x/../scpd{n}-{i}.xml",
-                                 f"http://other.example:99/scpd{n}_{i}.xml", f"//nl.example/scpd{n}_{i}"]), "doc": doc}
+                                 f"http://other.example:99/scpd{n}_{i}.xml", f"//nl.example/scpd{n}_{i}",
+                                 scheme_like(rng, f"scpd{n}_{i}", True), scheme_like(rng, f"scpd{n}_{i}", True)]),
+             "doc": doc}
         if not wf:
             for k in ("id", "type", "control", "event"):
                 if rng.random() < 0.08:
@@ -721,6 +741,18 @@ def corpus() -> List[Dict[str, Any]]:
                                                 {"name": "W", "direction": "out", "related": "Volume\n"}]}]}
     for strict in (True, False):
         out.append({"base": b, "strict": strict, "dev": leaf_dev([svc(1, pad)]), "style": 11})
+    # relative references that look like a scheme prefix / carry a scheme, for all four URL kinds
+    looks = [("httpd/ctl", "https_static/evt", "httpx/scpd.xml", "httpd/icons/sm.jpg"),
+             ("http", "HTTP/evt", "https/scpd", "https_static/x.png"),
+             ("a/b:c", "x:y/z", "host:8080/scpd", "http"),
+             ("http:rel/ctl", "HTTP://Upper.example/evt", "//nl.example/scpd3", "https:odd"),
+             ("?q=1", "", "urn:scpd", "//cdn.example/i.png")]
+    for k, (c_, e_, s_, i_) in enumerate(looks):
+        for base_ in ("http://10.0.0.1/a/b/description.xml?x=1", "https://dev.example/upnp/desc"):
+            out.append({"base": base_, "strict": True,
+                        "dev": leaf_dev([{**svc(1, doc), "control": c_, "event": e_, "scpd": s_}],
+                                        icons=[{"mimetype": "image/png", "width": "1", "height": "1", "depth": "1", "url": i_}]),
+                        "style": 20 + k})
     # two services sharing one SCPD document
     out.append({"base": b, "strict": True, "dev": leaf_dev([svc(1, doc), {**svc(2, doc), "scpd": "scpd1.xml"}]), "style": 8})
     return out
